@@ -111,7 +111,7 @@ theorem map_sizes_agree (tg : Target) (h : wfTarget tg = true) (ha : abiOK tg = 
   have hraw : ∀ a b : GoType, toRaw (mapBucket tg (toRaw a) (toRaw b)) = mapBucket tg (toRaw a) (toRaw b) := by
     intro a b
     unfold mapBucket
-    split <;> split <;> simp [toRaw, toRaws, toRaw_idem]
+    split <;> split <;> simp only [toRaw, toRaws, toRaw_idem] <;> split <;> simp [toRaw]
   rw [hraw] at e3
   simp only [mapSizes, e1, e2, e3]
 
@@ -190,6 +190,64 @@ theorem zero_tail_disagrees (tg : Target) (h : wfTarget tg = true) (fs : Fields)
 
 example : wfTarget amd64 = true ∧ padFrees amd64 (.cons (.basic .int64) (.cons (.struct .nil) .nil)) = true ∧
     tailOK (stdSAs amd64 (.cons (.basic .int64) (.cons (.struct .nil) .nil))) = false := by decide
+
+/-! ## `PtrBytes` (the prefix of a value that can hold pointers) -/
+
+/-- `struct{ p *int; n int }` and `struct{ s string; p *int; n [4]int }`: the code as it is records 0 and 16 (the
+    pointer-free LAST field overwrites `bytes`), the repaired loop (`fixes/C08-4.diff`) 8 and 24 -/
+theorem ptrBytes_counterexample :
+    let s1 : GoType := .struct (.cons (.pointer (.basic .int)) (.cons (.basic .int) .nil))
+    let s2 : GoType := .struct (.cons (.basic .string) (.cons (.pointer (.basic .int)) (.cons (.array 4 (.basic .int)) .nil)))
+    ptrBytesG amd64 false s1 = 0 ∧ ptrBytesG amd64 true s1 = 8 ∧ hasPtrs s1 = true ∧
+    ptrBytesG amd64 false s2 = 16 ∧ ptrBytesG amd64 true s2 = 24 := by decide
+
+/-- both variants agree when the last field is the last one with pointers -/
+theorem structPtrBytes_last (pbs offs : List Nat) (h : lastNonZero pbs = some (pbs.length - 1)) :
+    structPtrBytes false pbs offs = structPtrBytes true pbs offs := by
+  unfold structPtrBytes
+  rw [h]
+  simp only [Bool.false_eq_true, if_false, if_true]
+  congr 1
+  cases pbs with
+  | nil => simp [lastNonZero] at h
+  | cons x r => simp [List.getLastD, List.getD, List.getLast_eq_getElem]
+
+example : lastNonZero [0, 8, 16] = some ([0, 8, 16].length - 1) := by decide
+
+/-! ## aliases -/
+
+/-- `type F = func(); struct{ f F; x int }`: `extraSize` does not look through the alias -/
+def sAliasFunc : GoType := .struct (.cons (.alias .func) (.cons (.basic .int) .nil))
+
+theorem layout_alias_witness : goSizes amd64 sAliasFunc = ⟨16, 8, [0, 8]⟩ ∧ llvmLayout amd64 sAliasFunc = ⟨24, 8, [0, 16]⟩ ∧
+    abiTable amd64 sAliasFunc = ⟨24, 8, [0, 16]⟩ ∧ padFree amd64 sAliasFunc = false := by decide
+
+/-- an alias of a type without function values is harmless (covered by `layout_agree_partial`) -/
+example : padFree amd64 (.struct (.cons (.alias (.basic .int64)) (.cons (.alias (.struct .nil)) (.cons (.basic .int8) .nil)))) = true := by
+  decide
+
+/-! ## `unsafe.Offsetof` in instances of generic functions (`cl/instr.go`) -/
+
+/-- **Per-instance `unsafe.Offsetof`** computes the Go-spec value for every selector chain: the offset of the selected
+    field plus the offsets of exactly those parents that were inserted for promotion (up to the first selector written
+    in the source) — on top of LLVM offsets, which are the offsets generated code uses. -/
+theorem generic_offsetof_spec (sel : Nat) (ps : List Step) : chainOffset sel ps = specOffset sel ps :=
+  chainOffset_eq_spec ps sel
+
+/-- `Offsetof(x.a.b)` with `a` written in the source is relative to `x.a` … -/
+theorem generic_offsetof_explicit (sel o : Nat) (ps : List Step) : chainOffset sel (⟨o, true⟩ :: ps) = sel := by
+  simp [chainOffset]
+
+/-- … and a promoted field adds the offset of every embedded struct it is reached through. -/
+theorem generic_offsetof_promoted (sel o1 o2 : Nat) (ps : List Step) :
+    chainOffset sel (⟨o1, false⟩ :: ⟨o2, false⟩ :: ⟨0, true⟩ :: ps) = sel + o1 + o2 := by
+  simp [chainOffset]
+
+/-- `rec[int32]`: `struct{ A int64; B int32; h struct{ pad int32; len byte; w int32 } }`: `Offsetof(v.h.len)` = 4 -/
+example : genericOffsetof amd64
+    (.struct (.cons (.basic .int64) (.cons (.basic .int32)
+      (.cons (.struct (.cons (.basic .int32) (.cons (.basic .uint8) (.cons (.basic .int32) .nil)))) .nil))))
+    [(2, true), (1, true)] = some 4 := by decide
 
 /-! ## C-compatible structs -/
 
